@@ -1118,3 +1118,80 @@ def F_max_pool2d(interp, x, kernel_size, stride=None, padding=0, dilation=1, cei
         return acc
 
     return STensor(list(x.shape[:-2]) + [oh, ow], FLOAT, fn=fn, kind=x.kind)
+
+
+# ---------------------------------------------------------------------------------------
+# small-index utilities used by the PAF grouping code (bounded contracts: concrete lengths)
+
+@lib("torch.argsort")
+def torch_argsort(interp, t, dim=-1, descending=False, stable=False):
+    """Trusted contract (torch docs): a permutation sorting ascending; the relative order of
+    equal elements is unspecified unless stable=True (explored by path forks)."""
+    from .lib_numpy import np_argsort
+
+    if descending:
+        raise Unsupported("torch.argsort(descending=True)")
+    if t.rank != 1:
+        raise Unsupported("torch.argsort on rank-%d tensor" % t.rank)
+    r = np_argsort(interp, t, kind="stable" if stable else None)
+    r = T.reshape(r, list(r.shape))
+    r.kind = "torch"
+    return r
+
+
+@method("argsort")
+def t_argsort(interp, t, dim=-1, descending=False, stable=False):
+    return torch_argsort(interp, t, dim, descending, stable)
+
+
+@lib("torch.gather")
+def torch_gather(interp, t, dim, index):
+    if t.rank != 1 or index.rank != 1:
+        raise Unsupported("torch.gather on rank-%d tensor" % t.rank)
+    rd, ir = t.reader(), index.reader()
+    n = t.shape[0]
+
+    def fn(idx):
+        j = ir([idx[0]])
+        if not isinstance(j, int):
+            interp.path.require(V.b_and(V.i_le(0, j), V.i_lt(j, n)), "RuntimeError", "index out of bounds")
+        elif not (0 <= j < n if isinstance(n, int) else True):
+            raise PyExc("RuntimeError", ("index %d is out of bounds for dimension 0 with size %s" % (j, n),))
+        return rd([j])
+
+    return T.from_fn([index.shape[0]], t.dtype, fn)
+
+
+@lib("torch.unique", "numpy.unique")
+def torch_unique(interp, t, sorted=True, return_inverse=False, return_counts=False, dim=None, axis=None):
+    """Sorted distinct values of a small concrete-length integer vector (values must be
+    concrete on the path)."""
+    is_np = not isinstance(t, STensor) or t.kind == "numpy"
+    if not isinstance(t, STensor):
+        t = T.from_nested(list(t), INT) if len(t) else T.from_flat([0], [], INT)
+    flat = T.reshape(t, [-1])
+    n = flat.shape[0]
+    if not isinstance(n, int):
+        raise Unsupported("unique() of a symbolic-length tensor")
+    rd = flat.reader()
+    vals = [rd([i]) for i in range(n)]
+    if not all(isinstance(v, (int, float)) and not isinstance(v, bool) for v in vals):
+        raise Unsupported("unique() of symbolic values")
+    import builtins
+
+    u = builtins.sorted(set(vals))
+    kind = "numpy" if is_np else "torch"
+    out = T.from_flat([len(u)], u, t.dtype, kind=kind)
+    if not (return_inverse or return_counts):
+        return out
+    res = [out]
+    if return_inverse:
+        res.append(T.from_flat([n], [u.index(v) for v in vals], INT, kind=kind))
+    if return_counts:
+        res.append(T.from_flat([len(u)], [vals.count(v) for v in u], INT, kind=kind))
+    return tuple(res)
+
+
+@method("unique")
+def t_unique(interp, t, sorted=True, return_inverse=False, return_counts=False, dim=None):
+    return torch_unique(interp, t, sorted, return_inverse, return_counts, dim)
